@@ -551,80 +551,96 @@ class Connection(ExportImport):
         self._added_during_commit = None
 
     def _store_objects(self, writer, transaction):
-        for obj in writer:
-            oid = obj._p_oid
-            serial = getattr(obj, "_p_serial", z64)
+        obj = None
+        try:
+            for obj in writer:
+                oid = obj._p_oid
+                serial = getattr(obj, "_p_serial", z64)
 
-            if ((serial == z64)
-                    and
-                    ((self._savepoint_storage is None)
-                     or (oid not in self._savepoint_storage.creating)
-                     or self._savepoint_storage.creating[oid]
-                     )):
+                if ((serial == z64)
+                        and
+                        ((self._savepoint_storage is None)
+                         or (oid not in self._savepoint_storage.creating)
+                         or self._savepoint_storage.creating[oid]
+                         )):
 
-                # obj is a new object
+                    # obj is a new object
 
-                # Because obj was added, it is now in _creating, so it
-                # can be removed from _added.  If oid wasn't in
-                # adding, then we are adding it implicitly.
+                    # Because obj was added, it is now in _creating, so it
+                    # can be removed from _added.  If oid wasn't in
+                    # adding, then we are adding it implicitly.
 
-                implicitly_adding = self._added.pop(oid, None) is None
+                    implicitly_adding = self._added.pop(oid, None) is None
 
-                self._creating[oid] = implicitly_adding
+                    self._creating[oid] = implicitly_adding
 
-            else:
-                self._modified.append(oid)
-
-            p = writer.serialize(obj)  # This calls __getstate__ of obj
-            if len(p) >= self.large_record_size:
-                warnings.warn(large_object_message % (obj.__class__, len(p)))
-
-            if isinstance(obj, Blob):
-                if not IBlobStorage.providedBy(self._storage):
-                    raise Unsupported(
-                        "Storing Blobs in %s is not supported." %
-                        repr(self._storage))
-                if obj.opened():
-                    raise ValueError("Can't commit with opened blobs.")
-                blobfilename = obj._uncommitted()
-                if blobfilename is None:
-                    assert serial is not None  # See _uncommitted
-                    self._modified.pop()  # not modified
-                    continue
-                s = self._storage.storeBlob(oid, serial, p, blobfilename,
-                                            '', transaction)
-                # we invalidate the object here in order to ensure
-                # that that the next attribute access of its name
-                # unghostify it, which will cause its blob data
-                # to be reattached "cleanly"
-                obj._p_invalidate()
-            else:
-                s = self._storage.store(oid, serial, p, '', transaction)
-
-            self._store_count += 1
-            # Put the object in the cache before handling the
-            # response, just in case the response contains the
-            # serial number for a newly created object
-            try:
-                self._cache[oid] = obj
-            except:  # noqa: E722 do not use bare 'except'
-                # Dang, I bet it's wrapped:
-                # TODO:  Deprecate, then remove, this.
-                if hasattr(obj, 'aq_base'):
-                    self._cache[oid] = obj.aq_base
                 else:
-                    raise
+                    self._modified.append(oid)
 
-            self._cache.update_object_size_estimation(oid, len(p))
-            obj._p_estimated_size = len(p)
+                p = writer.serialize(obj)  # This calls __getstate__ of obj
+                if len(p) >= self.large_record_size:
+                    warnings.warn(large_object_message % (obj.__class__, len(p)))
 
-            # if we write an object, we don't want to check if it was read
-            # while current.  This is a convenient choke point to do this.
-            self._readCurrent.pop(oid, None)
-            if s:
-                # savepoint
-                obj._p_changed = 0  # transition from changed to up-to-date
-                obj._p_serial = s
+                if isinstance(obj, Blob):
+                    if not IBlobStorage.providedBy(self._storage):
+                        raise Unsupported(
+                            "Storing Blobs in %s is not supported." %
+                            repr(self._storage))
+                    if obj.opened():
+                        raise ValueError("Can't commit with opened blobs.")
+                    blobfilename = obj._uncommitted()
+                    if blobfilename is None:
+                        assert serial is not None  # See _uncommitted
+                        self._modified.pop()  # not modified
+                        continue
+                    s = self._storage.storeBlob(oid, serial, p, blobfilename,
+                                                '', transaction)
+                    # we invalidate the object here in order to ensure
+                    # that that the next attribute access of its name
+                    # unghostify it, which will cause its blob data
+                    # to be reattached "cleanly"
+                    obj._p_invalidate()
+                else:
+                    s = self._storage.store(oid, serial, p, '', transaction)
+
+                self._store_count += 1
+                # Put the object in the cache before handling the
+                # response, just in case the response contains the
+                # serial number for a newly created object
+                try:
+                    self._cache[oid] = obj
+                except:  # noqa: E722 do not use bare 'except'
+                    # Dang, I bet it's wrapped:
+                    # TODO:  Deprecate, then remove, this.
+                    if hasattr(obj, 'aq_base'):
+                        self._cache[oid] = obj.aq_base
+                    else:
+                        raise
+
+                self._cache.update_object_size_estimation(oid, len(p))
+                obj._p_estimated_size = len(p)
+
+                # if we write an object, we don't want to check if it was read
+                # while current.  This is a convenient choke point to do this.
+                self._readCurrent.pop(oid, None)
+                if s:
+                    # savepoint
+                    obj._p_changed = 0  # transition from changed to up-to-date
+                    obj._p_serial = s
+        except:  # noqa: E722 do not use bare 'except'
+            # New objects get their oid while their referrer is serialized.
+            # Those that did not make it into the cache are known to
+            # nobody else; disown them, or they would look stored and be
+            # referenced without a record by a later commit.
+            for new in [obj] + writer._stack:
+                if (new is not None and new._p_jar is self and
+                        getattr(new, '_p_serial', z64) == z64 and
+                        new._p_oid not in self._added and
+                        self._cache.get(new._p_oid) is None):
+                    self._creating.pop(new._p_oid, None)
+                    del new._p_jar
+                    del new._p_oid
+            raise
 
     def tpc_abort(self, transaction):
         transaction = transaction.data(self)
